@@ -26,8 +26,11 @@ type pipeCase struct {
 	WriteFailAfter *int          `json:"write_fail_after,omitempty"` // C20: reply writes fail once this many bytes were written (the peer is gone)
 	// C20: requests that are not arrays of bulk strings (a status line, an integer, a bulk, an empty or nested array, ...):
 	// Odd[k] is sent before request OddPos[k] (OddPos[k] == len(Reqs): at the end)
-	OddPos []int        `json:"odd_pos,omitempty"`
-	Odd    []resp.Value `json:"odd,omitempty"`
+	// C20: besides the password the server has a certificate rule (connections without a TLS state are turned away by
+	// the authenticator chain without an error)
+	CertRule bool         `json:"cert_rule,omitempty"`
+	OddPos   []int        `json:"odd_pos,omitempty"`
+	Odd      []resp.Value `json:"odd,omitempty"`
 }
 
 func (c pipeCase) values() []resp.Value {
